@@ -1339,7 +1339,7 @@ fn replace_sentinel(v: &RVal, with: &str) -> RVal {
     match v {
         RVal::Str(s) if s.contains(CRLF_SENTINEL) => RVal::Str(s.replace(CRLF_SENTINEL, with)),
         RVal::Array(a) => RVal::Array(a.iter().map(|x| replace_sentinel(x, with)).collect()),
-        RVal::Table(t) => RVal::Table(RTable { entries: t.entries.iter().map(|(k, x)| (k.clone(), replace_sentinel(x, with))).collect(), alt: t.alt.clone() }),
+        RVal::Table(t) => RVal::Table(RTable { entries: t.entries.iter().map(|(k, x)| (k.clone(), replace_sentinel(x, with))).collect(), alt: t.alt.clone(), dotted: t.dotted }),
         x => x.clone(),
     }
 }
